@@ -79,6 +79,14 @@ def make_template(V, name):
         return V.NormalDistribution(f_sigma=0.8)
     if name == "weibull_fb":        # fixed shape and location: only the scale is conditional
         return V.WeibullDistribution(f_beta=2.0, f_gamma=0.0)
+    if name == "normal_fm":         # FIRST parameter fixed, the second conditional
+        return V.NormalDistribution(f_mu=3.0)
+    if name == "lognormal_fm":
+        return V.LogNormalDistribution(f_mu=1.3)
+    if name == "weibull_fag":       # first and last fixed, the middle one conditional
+        return V.WeibullDistribution(f_alpha=2.5, f_gamma=0.0)
+    if name == "weibull_fmid":      # the middle one fixed
+        return V.WeibullDistribution(f_beta=2.0)
     raise KeyError(name)
 
 
@@ -266,7 +274,11 @@ def snapshot(b):
 
 
 # ------------------------------------------------------------------ case generation
-TEMPL_COND = ["lognormal", "lognormal", "normal", "weibull2", "ew", "weibull", "lognormal_fs", "normal_fs", "weibull_fb"]
+TEMPL_COND = ["lognormal", "lognormal", "normal", "weibull2", "ew", "weibull", "lognormal_fs", "normal_fs", "weibull_fb",
+              "normal_fm", "lognormal_fm", "weibull_fag", "weibull_fmid"]
+FIXED_FIRST = ["normal_fm", "lognormal_fm", "weibull_fag", "weibull_fmid"]     # a fixed parameter BEFORE a dependent one
+NORMALS = ("normal", "normal_fs", "normal_fm")
+LOGNORMALS = ("lognormal", "lognormal_fs", "lognormal_fm")
 TEMPL_IND = ["weibull", "weibull2", "lognormal", "ewfree", "ew"]
 STRUCTS = [[None, 0], [None, 0], [None, 0, 1], [None, 0, 0], [None, None, 1], [None, None, 0]]
 
@@ -353,9 +365,9 @@ def gen_data(nrng, spec, n_rows, variant):
             x = nrng.weibull(1.5, n_rows) * 2.6 + 0.15
         else:
             p = cols[c]
-            if dm["template"] in ("normal", "normal_fs"):
+            if dm["template"] in NORMALS:
                 x = nrng.normal(2.0 + 0.6 * p, 0.4 + 0.08 * p)
-            elif dm["template"] in ("lognormal", "lognormal_fs"):
+            elif dm["template"] in LOGNORMALS:
                 x = np.exp(nrng.normal(0.9 + 0.3 * np.sqrt(p), 0.18))
             else:
                 x = (1.0 + 0.5 * p) * nrng.weibull(2.2, n_rows) + 0.05
@@ -372,7 +384,7 @@ def gen_data(nrng, spec, n_rows, variant):
         data[:, 0] = nrng.choice(base, n_rows)
     # keep positive supports positive after rounding (normal-distributed columns may be anything)
     for i, dm in enumerate(spec["dims"]):
-        if dm["template"] not in ("normal", "normal_fs"):
+        if dm["template"] not in NORMALS:
             data[:, i] = np.maximum(data[:, i], 0.05)
     return data
 
@@ -402,6 +414,16 @@ def gen_case(ctx, k, big=False):
         spec["fds"] = [{"method": "wlsq", "weights": wopts[(k // 10 + j) % 4]} for j in range(len(spec["dims"]))]
         if variant == "sorted":
             variant = "shuffled"
+    if k % 10 == 3:
+        # a fixed parameter before / between the conditional ones
+        for j, dm in enumerate(spec["dims"]):
+            if dm["conditional_on"] is not None:
+                dm["template"] = FIXED_FIRST[(k // 10 + j) % len(FIXED_FIRST)]
+                t = make_template(_imp()[0], dm["template"])
+                dm["deps"] = {pn: rng.choice(LIN_KINDS) for pn in t.parameters if getattr(t, "f_" + pn) is None}
+        if spec["fds"] is not None:
+            spec["fds"] = [None if (d is not None and d["method"].lower() != "mle" and spec["dims"][j]["template"] in FIXED_FIRST) else d
+                           for j, d in enumerate(spec["fds"])]
     if k % 10 == 1:
         # dependence functions with every combination of bounds / weights in turn
         for dm in spec["dims"]:
@@ -416,6 +438,20 @@ def gen_case(ctx, k, big=False):
                 dm["slicer"] = {"kind": "width", "width": rng.choice([0.2, 0.3, 0.4, 0.6, 0.7]), "reference": rng.choice(["center", "left", "median"]),
                                 "right_open": rng.random() < 0.5, "value_range": None, "min_n_points": 10, "min_n_intervals": 2}
     data = gen_data(nrng, spec, n_rows, variant)
+    if k % 10 == 2:
+        # NumberOfIntervalsSlicer / WidthOfIntervalSlicer with an explicit value range INSIDE the data range (both ends):
+        # observations below and above the range belong to no interval
+        for c in {dm["conditional_on"] for dm in spec["dims"] if dm["conditional_on"] is not None}:
+            lo, hi = (round(float(v), 1) for v in np.quantile(data[:, c], [0.12, 0.8]))
+            if hi <= lo:
+                continue
+            if (k // 10) % 3 == 2:
+                spec["dims"][c]["slicer"] = {"kind": "width", "width": round((hi - lo) / 5, 2) or 0.1, "reference": "center", "right_open": rng.random() < 0.5,
+                                             "value_range": [lo, hi], "min_n_points": 10, "min_n_intervals": 2}
+            else:
+                spec["dims"][c]["slicer"] = {"kind": "number", "n_intervals": rng.randrange(3, 8), "reference": rng.choice(["center", "right", "mean"]),
+                                             "include_max": (k // 10) % 3 == 0 or rng.random() < 0.5, "value_range": [lo, hi],
+                                             "min_n_points": 10, "min_n_intervals": 2}
     perm = [int(i) for i in nrng.permutation(n_rows)]
     refit = rng.random() < 0.5
     # model/Intervals.v's PointsPerInterval masks use unary position numbers (cubic in the number of rows under
